@@ -231,6 +231,12 @@ class C03(Property):
       # (skip / limit / map / filter wrap the data once more per call by
       # design - a thousand of them nest a thousand iterators in any lazy
       # implementation - so they are not part of these long histories)
+      if W.chance("lag", 1, 4):
+        # one copy falls thousands of items behind its origin, then is read
+        return {"roots": [{"kind": "endless"}],
+                "ops": [["copy"]] + [["take_first"]] * W.pick("lag", [700,
+                                                                   900]) +
+                       [["take_last"]] * 3 + [["take_first"]] * 2}
       return {"roots": [{"kind": W.pick("mroot", ["endless", "periodic"]),
                          "n": 3}],
               "ops": pattern * W.pick("mlen", [700, 1300])}
@@ -425,7 +431,7 @@ class _Ctx(object):
   def new_source(self, length):
     src = SimSource(self.next_sid, length)
     if length is None:
-      src.budget, src.slack = 3000, 0     # an eager stage must not hang us
+      src.budget, src.slack = 12000, 0    # an eager stage must not hang us
     self.next_sid += 1
     self.sources.append(src)
     return src
@@ -685,6 +691,15 @@ class _Ctx(object):
       nh = self.add("hub", got[1], HandleModel(ListSeq(items)), uses=op[3])
       self.events.append("thub(<%s %d>, %d) -> h%d" % (rk, len(items), op[3],
                                                        nh.hid))
+      return
+    if name in ("take_first", "take_last"):
+      # (directed: the oldest / the newest live handle, six items)
+      if self.pool:
+        h = self.pool[0 if name == "take_first" else -1]
+        try:
+          self.op_take(h, ["take", "within", 5, None])
+        except Starved:
+          self.res.counters["skipped-starved"] += 1
       return
     if name == "tee_raw":
       # lazy_itertools.tee of something that is not a Stream: n independent
